@@ -189,6 +189,23 @@ class ModuleInfo:
         return lines[lineno - 1] if 0 < lineno <= len(lines) else ""
 
 
+_PARSE_CACHE: dict = {}
+
+
+def _module(rel, source):
+    """dev tools (self-tests over hundreds of variants) may share parsed modules between Index objects: set
+    VERIF_PARSE_CACHE=1.  Registered checks never do (one Index per run)."""
+    if os.environ.get("VERIF_PARSE_CACHE") != "1":
+        return ModuleInfo(rel, source)
+    k = (rel, hash(source))
+    m = _PARSE_CACHE.get(k)
+    if m is None:
+        if len(_PARSE_CACHE) > 400:
+            _PARSE_CACHE.clear()
+        m = _PARSE_CACHE[k] = ModuleInfo(rel, source)
+    return m
+
+
 class Index:
     def __init__(self, repo: str, overrides: dict[str, str] | None = None, package: str = "cohdl"):
         self.repo = repo
@@ -211,7 +228,7 @@ class Index:
             else:
                 with open(os.path.join(repo, rel), encoding="utf-8") as fh:
                     source = fh.read()
-            self.modules[rel] = ModuleInfo(rel, source)
+            self.modules[rel] = _module(rel, source)
         for rel, source in self.overrides.items():
             if rel not in self.modules:
                 self.modules[rel] = ModuleInfo(rel, source)
